@@ -301,6 +301,11 @@ func treeCase(r *sim.R, k int) {
 	if t.Bool("case-merge") {
 		// Merge(dst, src) where dst is built under the canonical order
 		b := g.Dict(1)
+		if t.Chance(1, 2, "source-of-the-destinations-shape") {
+			// (most names and positions on both sides: policies meet containers at depth)
+			b = g.Variant(a)
+			r.Probe("order: merge source of the destination's shape")
+		}
 		src := flatten(r, b, 0)
 		pol := []ucfg.Option{nil, ucfg.ReplaceValues, ucfg.ReplaceArrValues, ucfg.AppendValues, ucfg.PrependValues}[t.Choose(5, "policy")]
 		mopts := opts
